@@ -26,7 +26,7 @@ use crate::{
     case::{CaseResult, apply_abort, sim_stats},
     exec::{self, with_world},
     net,
-    props::{Campaign, campaign},
+    props::{Campaign, campaign_fixed},
     types::{KeyedData, blob_for},
     util::{Timed, dk_ms, factory, timeout, wait_until},
 };
@@ -53,6 +53,11 @@ impl V {
     fn u16(self) -> u16 {
         U16S[idx(self.0, U16S.len())]
     }
+}
+
+/// the V that resolves to entry `i` of a class table of length `len`
+fn vi(i: usize, len: usize) -> V {
+    V((((i << 16) + len - 1) / len) as u16)
 }
 
 #[derive(Clone, Debug, Serialize, Deserialize)]
@@ -112,7 +117,7 @@ fn payload_strategy() -> BoxedStrategy<HPayload> {
 fn sub_strategy() -> BoxedStrategy<HSub> {
     let e = || 0u8..10;
     prop_oneof![
-        4 => (e(), e(), v(), any::<u8>(), prop_oneof![4 => Just(V(4 * 4096 + 1)), 1 => v()], prop::collection::vec((any::<u16>(), prop::collection::vec(any::<u8>(), 0..20)), 0..3), payload_strategy())
+        4 => (e(), e(), v(), any::<u8>(), prop_oneof![4 => Just(vi(5, U16S.len())), 1 => v()], prop::collection::vec((any::<u16>(), prop::collection::vec(any::<u8>(), 0..20)), 0..3), payload_strategy())
             .prop_map(|(reader, writer, sn, flags, otq, qos, payload)| HSub::Data { reader, writer, sn, flags, otq, qos, payload }),
         4 => (e(), e(), v(), any::<u8>(), v(), v(), v(), v(), any::<u8>())
             .prop_map(|(reader, writer, sn, flags, frag_start, frags, frag_size, data_size, payload_len)| HSub::DataFrag { reader, writer, sn, flags, frag_start, frags, frag_size, data_size, payload_len }),
@@ -144,6 +149,160 @@ pub fn strategy() -> BoxedStrategy<C06Case> {
     (prop_oneof![3 => Just(1344u32), 1 => Just(100u32)], prop::collection::vec((hostile, prop_oneof![3 => Just(0u16), 1 => 0u16..300]), 1..20))
         .prop_map(|(frag, datagrams)| C06Case { frag, datagrams })
         .boxed()
+}
+
+/// Systematic part of the campaign: every product of the adversarial classes of the numeric fields
+/// of each submessage kind, sent in the peer's name to the matched user endpoints (and, for
+/// reader-directed kinds, to ENTITYID_UNKNOWN = all readers). Defects of this property live at
+/// single points of that product (one magic sequence number in one field), which random draws of
+/// 1-19 datagrams reach only occasionally. Cases pack several products (a panic ends a case, so the
+/// minimiser isolates the datagram); submessages with a count use ascending counts within a case.
+pub fn systematic(thorough: bool, seed: u64, quota: usize) -> Vec<C06Case> {
+    let i64s: Vec<V> = (0..I64S.len()).map(|i| vi(i, I64S.len())).collect();
+    let u32s: Vec<V> = (0..U32S.len()).map(|i| vi(i, U32S.len())).collect();
+    let u16s: Vec<V> = (0..U16S.len()).map(|i| vi(i, U16S.len())).collect();
+    let u32_of = |x: u32| vi(U32S.iter().position(|v| *v == x).unwrap(), U32S.len());
+    let u16_of = |x: u16| vi(U16S.iter().position(|v| *v == x).unwrap(), U16S.len());
+    let i64_of = |x: i64| vi(I64S.iter().position(|v| *v == x).unwrap(), I64S.len());
+    // counts that exceed the genuine peer's counters, ascending
+    let counts: Vec<V> = [31u32, 32, 33, 255, 256, 257, 65_535, 0x7fff_ffff].iter().map(|c| u32_of(*c)).collect();
+    let few_bits: Vec<V> = [0u32, 1, 32, 256, 257, u32::MAX].iter().map(|c| u32_of(*c)).collect();
+    // (reader index, writer index) in the entity id menu
+    let to_reader: &[(u8, u8)] = if thorough { &[(1, 0), (8, 0)] } else { &[(1, 0)] };
+    let to_writer: &[(u8, u8)] = &[(3, 2)];
+    let mut counted: Vec<Vec<HSub>> = vec![]; // kinds with a count: 8 per case
+    let mut plain: Vec<Vec<HSub>> = vec![]; // 16 per case
+    for &(reader, writer) in to_reader {
+        let mut hb = vec![];
+        for first in &i64s {
+            for last in &i64s {
+                for flags in [0u8, 2, 4] {
+                    hb.push((*first, *last, flags));
+                }
+            }
+        }
+        for (j, (first, last, flags)) in hb.into_iter().enumerate() {
+            counted.push(vec![HSub::Heartbeat { reader, writer, first, last, count: counts[j % counts.len()], flags }]);
+        }
+        let mut j = 0;
+        for sn in &i64s {
+            for last_frag in &u32s {
+                counted.push(vec![HSub::HeartbeatFrag { reader, writer, sn: *sn, last_frag: *last_frag, count: counts[j % counts.len()] }]);
+                j += 1;
+            }
+        }
+        for sn in &i64s {
+            for flags in [0u8, 0x02, 0x04, 0x06, 0x08, 0x0a] {
+                for otq in &u16s {
+                    // followed by another submessage: offsets past this DATA stay inside the datagram
+                    plain.push(vec![
+                        HSub::Data { reader, writer, sn: *sn, flags, otq: *otq, qos: vec![], payload: HPayload::ValidSample { seq: 40, len: 8 } },
+                        HSub::InfoTs { flags: 0, s: u32_of(1), f: u32_of(0) },
+                    ]);
+                }
+            }
+        }
+        for sn in [4i64, 5, i64::MAX, 0] {
+            for frag_start in [0u32, 1, 2, 3, 256, u32::MAX] {
+                for frags in [0u16, 1, 2, 0xffff] {
+                    for frag_size in [0u16, 1, 8, 0xffff] {
+                        for data_size in [0u32, 1, 31, 65_535, u32::MAX] {
+                            plain.push(vec![HSub::DataFrag {
+                                reader,
+                                writer,
+                                sn: i64_of(sn),
+                                flags: 0,
+                                frag_start: u32_of(frag_start),
+                                frags: u16_of(frags),
+                                frag_size: u16_of(frag_size),
+                                data_size: u32_of(data_size),
+                                payload_len: 8,
+                            }]);
+                        }
+                    }
+                }
+            }
+        }
+        for start in &i64s {
+            for base in &i64s {
+                for num_bits in &few_bits {
+                    for words in [0u8, 1, 8] {
+                        plain.push(vec![HSub::Gap { reader, writer, start: *start, base: *base, num_bits: *num_bits, words }]);
+                    }
+                }
+            }
+        }
+    }
+    for &(reader, writer) in to_writer {
+        let mut j = 0;
+        for base in &i64s {
+            for num_bits in &u32s {
+                for words in [0u8, 1, 8] {
+                    for flags in [0u8, 2] {
+                        counted.push(vec![HSub::AckNack { reader, writer, base: *base, num_bits: *num_bits, words, count: counts[j % counts.len()], flags }]);
+                        j += 1;
+                    }
+                }
+            }
+        }
+        for sn in &i64s {
+            for base in &u32s {
+                for num_bits in &few_bits {
+                    for words in [0u8, 8] {
+                        counted.push(vec![HSub::NackFrag { reader, writer, sn: *sn, base: *base, num_bits: *num_bits, words, count: counts[j % counts.len()] }]);
+                        j += 1;
+                    }
+                }
+            }
+        }
+    }
+    let dg = |subs: &Vec<HSub>, be: bool| (Hostile::Structured { prefix: 0, big_endian: be, version: (2, 4), subs: subs.clone() }, 0u16);
+    let mut cases = vec![];
+    for chunk in counted.chunks(8) {
+        // counts ascend with the position in the chunk only if the chunk starts at a multiple of 8
+        cases.push(C06Case { frag: 1344, datagrams: chunk.iter().map(|s| dg(s, false)).collect() });
+    }
+    for chunk in plain.chunks(16) {
+        cases.push(C06Case { frag: 1344, datagrams: chunk.iter().map(|s| dg(s, false)).collect() });
+    }
+    if thorough {
+        for chunk in counted.chunks(8) {
+            cases.push(C06Case { frag: 1344, datagrams: chunk.iter().map(|s| dg(s, true)).collect() });
+        }
+    }
+    // seeded order; the quick tier takes the first `quota`
+    let mut keyed: Vec<(u64, C06Case)> = cases.into_iter().enumerate().map(|(i, c)| (vcore::mix(seed, "systematic", i as u64), c)).collect();
+    keyed.sort_by_key(|(k, _)| *k);
+    keyed.into_iter().take(quota).map(|(_, c)| c).collect()
+}
+
+/// simpler variants of a failing constructed case: each datagram alone, then each one removed
+fn smaller(c: &C06Case) -> Vec<C06Case> {
+    let mut out = vec![];
+    if c.datagrams.len() > 1 {
+        for d in &c.datagrams {
+            out.push(C06Case { frag: c.frag, datagrams: vec![d.clone()] });
+        }
+        for i in 0..c.datagrams.len() {
+            let mut d = c.datagrams.clone();
+            d.remove(i);
+            out.push(C06Case { frag: c.frag, datagrams: d });
+        }
+    }
+    for (i, (h, p)) in c.datagrams.iter().enumerate() {
+        if let Hostile::Structured { prefix, big_endian, version, subs } = h {
+            if subs.len() > 1 {
+                for k in 0..subs.len() {
+                    let mut s2 = subs.clone();
+                    s2.remove(k);
+                    let mut d = c.datagrams.clone();
+                    d[i] = (Hostile::Structured { prefix: *prefix, big_endian: *big_endian, version: *version, subs: s2 }, *p);
+                    out.push(C06Case { frag: c.frag, datagrams: d });
+                }
+            }
+        }
+    }
+    out
 }
 
 // ------------------------------------------------------------------------------------------
@@ -650,14 +809,16 @@ pub fn eval(case: &C06Case) -> CaseResult {
 }
 
 pub fn main(ctx: &Ctx) {
-    campaign(
+    let thorough = ctx.tier == vcore::Tier::Thorough;
+    let fixed = if ctx.replay.is_some() { vec![] } else { systematic(thorough, ctx.seed, ctx.pick(500, usize::MAX as u64) as usize) };
+    campaign_fixed(
         ctx,
         Campaign {
-            total_cases: ctx.pick(1_500, 80_000),
+            total_cases: ctx.pick(1_000, 80_000),
             max_shrink_iters: 60,
             limits: Limits { cpu_s: 6, wall_s: 90, as_bytes: 4 << 30 },
             meta: Meta {
-                rule: "a victim participant with a reliable TRANSIENT_LOCAL writer and reader matched to a well-behaved peer receives 1-19 hostile datagrams interleaved with normal traffic: random bytes, captured valid datagrams with byte edits/truncation, or structured RTPS messages (all submessage kinds, both byte orders) with adversarial sequence numbers, set sizes (numBits up to 2^32-1), fragment numbers/sizes (0), counts, declared lengths, inline QoS and payloads (mutated captured discovery/user payloads), addressed to matched user endpoints and builtin endpoints and optionally spoofing the peer's GUID prefix; oracle: no panic in any task, CPU <= 6 s (hang), no single allocation > 256 MiB, heap growth <= 1024*bytes + 8 MiB, afterwards get_qos answers and a never-spoofed newcomer matches and exchanges a fresh sample with the victim in both directions; non-trivial = a structured message claimed the peer's prefix and addressed an existing endpoint, or a mutated captured datagram still parsed; distinct = hash of the case",
+                rule: "two parts, same scenario and oracle. (a) constructed: every product of the adversarial value classes of the numeric fields of HEARTBEAT, HEARTBEAT_FRAG, DATA (+ trailing INFO_TS), DATA_FRAG (reduced classes), GAP, ACKNACK and NACK_FRAG sent in the peer's name to the matched user endpoints, 8-16 products per case (quick: a seeded 500-case subset, thorough: all, also big-endian and to ENTITYID_UNKNOWN); (b) generated: a victim participant with a reliable TRANSIENT_LOCAL writer and reader matched to a well-behaved peer receives 1-19 hostile datagrams interleaved with normal traffic: random bytes, captured valid datagrams with byte edits/truncation, or structured RTPS messages (all submessage kinds, both byte orders) with adversarial sequence numbers, set sizes (numBits up to 2^32-1), fragment numbers/sizes (0), counts, declared lengths, inline QoS and payloads (mutated captured discovery/user payloads), addressed to matched user endpoints and builtin endpoints and optionally spoofing the peer's GUID prefix; oracle: no panic in any task, CPU <= 6 s (hang), no single allocation > 256 MiB, heap growth <= 1024*bytes + 8 MiB, afterwards get_qos answers and a never-spoofed newcomer matches and exchanges a fresh sample with the victim in both directions; non-trivial = a structured message claimed the peer's prefix and addressed an existing endpoint, or a mutated captured datagram still parsed; distinct = hash of the case",
                 assumptions: &[
                     "deterministic simulation; datagrams are injected straight into the victim's receive path",
                     "harness built with overflow-checks on (as every debug build of dust-dds): an arithmetic overflow is a panic",
@@ -666,6 +827,8 @@ pub fn main(ctx: &Ctx) {
                 nontrivial_floor: 200,
             },
         },
+        fixed,
+        smaller,
         strategy(),
         eval,
     );
